@@ -255,7 +255,7 @@ func cmdCheck(args []string) int {
 	if *only != "" {
 		onlyRe = regexp.MustCompile(*only)
 	}
-	replayDir := filepath.Join(verifDir(), "replays", *prop)
+	replayDir := filepath.Join(outDir(), "replays", *prop)
 	os.MkdirAll(replayDir, 0o755)
 
 	var hev []*harnessEvidence
@@ -507,9 +507,9 @@ func cmdCheck(args []string) int {
 			"known_findings_hit":            knownLines,
 		},
 	}
-	os.MkdirAll(filepath.Join(verifDir(), "evidence"), 0o755)
+	os.MkdirAll(filepath.Join(outDir(), "evidence"), 0o755)
 	b, _ := json.MarshalIndent(evd, "", " ")
-	if err := os.WriteFile(filepath.Join(verifDir(), "evidence", *prop+".json"), b, 0o644); err != nil {
+	if err := os.WriteFile(filepath.Join(outDir(), "evidence", *prop+".json"), b, 0o644); err != nil {
 		fmt.Fprintln(os.Stderr, "evidence:", err)
 		return 2
 	}
